@@ -445,6 +445,15 @@ def curated():
     out.append((d, {'eol_comments': r'#[^\n]*'}, G.inputs('a#\n ', 5)))
     out.append((d, {'whitespace': r'[ ]+'}, G.inputs('ab\n ', 4)))
     out.append((d, {'whitespace': r'[ ]+', 'eol_comments': r'#[^\n]*\n?'}, G.inputs('a#\n ', 5)))
+    # a named / overridden group or optional that yields several elements, followed by further list-producing groups, optionals and
+    # closures in the same sequence: the value bound to the name is the value of ITS expression, whatever the sequence collects later
+    # (a list shared between the binding and the sequence's accumulator would grow behind the name)
+    two = ('group', seq(T('a'), T('b')))
+    for first in (('named', 'x', two), ('namedlist', 'x', two), ('override', two), ('named', 'x', ('opt', seq(T('a'), T('b')))),
+                  ('named', 'x', ('closure', T('a'))), ('named', 'x', ('pclosure', T('a')))):
+        for nxt in (('group', seq(T('b'), T('a'))), ('opt', seq(T('b'), T('a'))), ('closure', T('b')), ('group', seq(T('b'), ('named', 'y', T('a'))))):
+            out.append(((('start', seq(first, nxt, ('eof',))),), {'nameguard': False}, G.inputs('ab', 5)))
+            out.append(((('start', seq(first, nxt, ('named', 'y', ('group', seq(T('a'), T('a')))), ('eof',))),), {'nameguard': False}, G.inputs('ab', 6)))
     # skip-to: "{ !e /./ } e", whitespace skipped at each step
     for e in (T('b'), ('pat', 'b'), ('la', T('b')), ('group', seq(T('b'), T('a')))):
         out.append(((('start', seq(('skipto', e), ('closure', ('dot',)))),), {'nameguard': False},
